@@ -51,6 +51,14 @@ def run(ctx):
         with ctx.renamed({"C14.RESVEC": "C15.COLLECT"}):
             c14.rule_resvec(ctx, M)
         rule_map(ctx, M)
+        # "processes exactly the first min(n, len) items" is about whatever terminal operation sits under the
+        # adapters: the for_each consumer must forward, count, call and drain like the collecting one (premises of C13
+        # re-checked here)
+        with ctx.renamed({"C13.*": "C15.TAKE"}):
+            c13.rule_bp(ctx, M, "ForEachConsumer", "ForEachFut", "C13.BP")
+            c13.rule_dec_call(ctx, M, "ForEachFut", "C13.DEC", "C13.CALL")
+            c13.rule_flush(ctx, M, "ForEachConsumer", "C13.FLUSH")
+            c13.rule_drive(ctx, M, "C13.DRIVE")
         rule_stack(ctx, M)
         with ctx.renamed({"X.WRAP": "C15.STACK"}):
             c14.rule_wrap(ctx, M, "X.WRAP")
